@@ -102,6 +102,30 @@ CLAIMED.update({
              technique="CrossHair symbolic execution (z3 strings) of decode/file_to_blocks; symx symbolic execution of read_bytes offsets; native e2e replay"),
 })
 
+CLAIMED.update({
+ "C26": dict(text="Bounded symbolic execution of the overlap index arithmetic with symbolic chunk sizes and (asymmetric) depths, both unbounded above: "
+                  "ensure_minimum_chunksize keeps the sum and the minimum (ValueError iff the axis is shorter than the depth); the real ArrayOverlapLayer graph "
+                  "(1-d, 2-d block grids) assembles each overlapped block from contiguous, ordered pieces covering exactly [start-left, end+right) clipped at the "
+                  "array ends, with truthful lazy chunks; _trim cuts every block back to its original extent for every block position and boundary kind, so "
+                  "overlap-then-trim is the identity pointwise; e2e map_overlap vs pad-apply-trim for five boundary kinds.",
+             note=_ENUM_NOTE + "Transcription of PySlice_AdjustIndices for NumPy slicing; ShimInt in coerce_depth_type; recorder for trim_internal's map_blocks. "
+                  "Outside: boundary value generation (NumPy; e2e only), sliding_window_view, >3 blocks per axis, >2 dims.", design_ref="DESIGN.md sec. 3 C26"),
+ "C29": dict(text="Bounded symbolic execution of the index arithmetic behind da.store: ArraySliceDep/slices_from_chunks tile [0, shape) (symbolic chunk sizes >= 0, "
+                  "symbolic probe position lies in exactly its own block's slice); load_store_chunk run on a recording target composes a symbolic region "
+                  "(start/stop symbolic or None, enumerated step) with a symbolic block slice so that element q of the block lands exactly on "
+                  "target[region][block][q], 1-d and 2-d; e2e da.store with lock True/False/Lock, compute=False, return_stored against NumPy assignment.",
+             note=_ENUM_NOTE + "Transcription of PySlice_AdjustIndices for the target's __setitem__; region steps enumerated (linear arithmetic). Outside: "
+                  "to_npy_stack/from_npy_stack (file I/O), real lock contention, Delayed targets.", design_ref="DESIGN.md sec. 3 C29"),
+ "C41": dict(text="Bounded symbolic execution of the kernels that produce known divisions: loc[lo:hi] / loc[label] / loc[list] (LocSlice, LocElement, LocList "
+                  "methods on duck-typed expressions), _partition_of_index_value, RepartitionDivisions._layer and sorted_division_locations, with the input "
+                  "divisions as sorted unbounded symbolic ints (assumed truthful: induction step) and a symbolic row label: npartitions == len(divisions)-1, a "
+                  "kept row sits in exactly one output partition whose division interval contains it, no selected row is lost, reported divisions sorted. "
+                  "repartition(npartitions=more) on numeric divisions and from_pandas are decided on solver-enumerated inputs only (float/NumPy code). e2e on "
+                  "real pandas frames: per-partition index values against .divisions.",
+             note=_DF_NOTE + " Outside: set_index (quantile sketches), merges/concat/filters (pandas kernels), datetime partial-string indexing.",
+             design_ref="DESIGN.md sec. 3 C41"),
+})
+
 NOT_APPLICABLE = {}
 
 _NA_DESIGN = {
